@@ -39,6 +39,8 @@ structure Layout where
   dec : List (List Nat)
   strDecs : List StrDec
   strCaps : List (Nat × Nat)
+  /-- `(f, n)`: Decode returns an error when integer field `f` exceeds `n` (checked before any slice that depends on it). -/
+  decGuards : List (Nat × Nat)
   deriving Repr
 
 /-- A value: one byte list per field (integers little-endian, strings as their bytes). -/
@@ -86,11 +88,38 @@ def decodeField (L : Layout) (b : Bytes) (f : Nat) : Option Bytes :=
       | none => some []
     | none => some []
 
-/-- Decoding a whole frame; `none` iff some field's decode panics. -/
-def decode (L : Layout) (b : Bytes) : Option Val :=
-  if (List.range L.fields.length).all (fun f => (decodeField L b f).isSome) then
-    some ((List.range L.fields.length).map (fun f => (decodeField L b f).getD []))
-  else none
+def fromLE : Bytes → Nat
+  | [] => 0
+  | b :: bs => b.toNat + 256 * fromLE bs
+
+inductive DecResult
+  | ok (v : Val)
+  | err      -- Decode returned an error
+  | panic    -- Decode panics (slice bounds out of range)
+  deriving DecidableEq, Repr
+
+def guardRefuses (L : Layout) (b : Bytes) : Bool :=
+  L.decGuards.any (fun (f, n) => fromLE (decodeInt b (L.dec.getD f [])) > n)
+
+/-- Decoding a whole frame. -/
+def decode (L : Layout) (b : Bytes) : DecResult :=
+  if guardRefuses L b then .err
+  else if (List.range L.fields.length).all (fun f => (decodeField L b f).isSome) then
+    .ok ((List.range L.fields.length).map (fun f => (decodeField L b f).getD []))
+  else .panic
+
+/-- Every length-prefixed string is protected by a guard that keeps its slice inside the frame. -/
+def decodeSafe (L : Layout) : Bool :=
+  (List.range L.fields.length).all (fun f =>
+    match (L.fields.getD f default).kind with
+    | .lpstr =>
+      match L.strDecs.find? (fun sd => sd.field == f) with
+      | some sd =>
+        match sd.lenField with
+        | some lf => (L.dec.getD lf []).length == 1 && L.decGuards.any (fun (g, n) => g == lf && sd.start + n ≤ 64)
+        | none => true
+      | none => true
+    | _ => true)
 
 /-! ### Decidable table conditions (checked by `decide` on every generated table) -/
 
@@ -163,10 +192,6 @@ def wellTyped (L : Layout) (v : Val) : Bool :=
 def toLE : Nat → Nat → Bytes
   | 0, _ => []
   | w + 1, n => (n % 256).toUInt8 :: toLE w (n / 256)
-
-def fromLE : Bytes → Nat
-  | [] => 0
-  | b :: bs => b.toNat + 256 * fromLE bs
 
 def pad (s : Bytes) (n : Nat) : Bytes := (List.range n).map (fun i => s.getD i 0)
 
